@@ -1109,6 +1109,15 @@ func classify(v *report.Violation) {
 	}
 	if v.Kind == "A4-stop-retransmitted" && !crashed && epochs == 0 {
 		ops, _ := v.Extra["ops"].([]string)
+		graceful := false
+		for _, op := range ops {
+			graceful = graceful || op == "Restart"
+		}
+		if !graceful && len(unanswered) >= 3 && has(typStop, false) {
+			// one process, no restart: the queued Stop was sent by the ticker scan and again from the channel
+			v.Class = "C08-F5-record-sent-by-both-worker-paths"
+			return
+		}
 		for _, op := range ops {
 			if op == "Restart" {
 				if has(typStop, false) {
